@@ -18,7 +18,8 @@
 import Mcp.Model.Routing
 import Mcp.Gen.PendingFacts
 namespace Mcp.Props.C05
-open Mcp.Str Mcp.Ids Mcp.Pending Mcp.Routing
+open Mcp.Str Mcp.Ids Mcp.Routing
+open Mcp.Pending (Key KeyKind WireId keyOfReq keyOfWire)
 
 /-! ## well-formedness of the session table -/
 
@@ -52,7 +53,7 @@ private theorem step_frames (srv : Server) (f : Facts) (s : St) (op : Op) (hw : 
     ∃ new, (step srv f s op).1.delivered = s.delivered ++ new ∧
       ((∃ a m, new = [notifFrame a m] ∧ opTags .notif [op] = [m]) ∨
        (∃ a m, new = [(a, ⟨.req, a, m⟩)] ∧ opTags .req [op] = [m]) ∨
-       (∃ l m, l.Nodup ∧ new = l.map (fun a => notifFrame a m) ∧ opTags .notif [op] = [m]) ∨
+       (∃ (l : List Nat) (m : Nat), l.Nodup ∧ new = l.map (fun a => notifFrame a m) ∧ opTags .notif [op] = [m]) ∨
        new = []) := by
   cases op with
   | newSession =>
@@ -197,10 +198,10 @@ private theorem nodup_filter_eq (l : List Nat) (a : Nat) (h : l.Nodup) : l.filte
         rw [List.filter_eq_nil_iff]
         intro y hy hyx
         simp at hyx; subst hyx; exact h.1 hy
-      simp [List.filter_cons, this]
+      simp [this]
     · rcases ih h.2 with h1 | h1
-      · left; simp [List.filter_cons, hx, h1]
-      · right; simp [List.filter_cons, hx, h1]
+      · left; simp [hx, h1]
+      · right; simp [hx, h1]
 
 private def sel (a : Nat) (k : Kind) (l : List (Nat × Frame)) : List Nat :=
   (l.filter (fun x => x.1 = a ∧ x.2.kind = k)).map (fun x => x.2.tag)
@@ -222,7 +223,7 @@ private theorem sel_broadcast (a : Nat) (k : Kind) (l : List Nat) (m : Nat) (h :
         · subst hx; simpa using ih'
         · simpa [hx] using ih'
       · have hk' : ¬ (Kind.notif = k) := fun h' => hk h'.symm
-        simpa [hk, hk'] using ih'
+        simp [hk, hk']
   rw [hsel]
   by_cases hk : k = .notif
   · simp only [hk, if_true]
@@ -250,7 +251,8 @@ private theorem step_sel (srv : Server) (f : Facts) (s : St) (op : Op) (hw : WF 
     have := sel_broadcast a k l m hl
     cases k
     · rw [ht]; simpa using this
-    · simpa using this
+    · have h' : sel a .req (l.map (fun b => notifFrame b m)) = [] := by simpa using this
+      rw [h']; exact List.nil_sublist _
   · subst hn; simp [sel]
 
 private theorem opTags_cons (k : Kind) (o : Op) (os : List Op) : opTags k (o :: os) = opTags k [o] ++ opTags k os := by
@@ -314,38 +316,34 @@ theorem C05_request_delivered_iff_issued (srv : Server) (f : Facts) (s : St) (a 
 
 /-! ## broadcast / filtered accounting -/
 
+private theorem filter_frames (l : List Nat) (a m : Nat) :
+    (l.map (fun b => notifFrame b m)).filter (fun x => x.1 = a) = (l.filter (· = a)).map (fun b => notifFrame b m) := by
+  induction l with
+  | nil => rfl
+  | cons x xs ih =>
+    by_cases hx : x = a
+    · simp only [List.map_cons, List.filter_cons, notifFrame, hx, decide_true, if_true, List.cons.injEq, true_and]
+      simpa [notifFrame] using ih
+    · simp only [List.map_cons, List.filter_cons, notifFrame, hx, decide_false]
+      simpa [notifFrame] using ih
+
 private theorem count_reached (l : List Nat) (a m : Nat) (hl : l.Nodup) (ha : a ∈ l) :
     ((l.map (fun b => notifFrame b m)).filter (fun x => x.1 = a)).length = 1 := by
-  have : (l.map (fun b => notifFrame b m)).filter (fun x => x.1 = a) = (l.filter (· = a)).map (fun b => notifFrame b m) := by
-    induction l with
-    | nil => rfl
-    | cons x xs ih =>
-      have hxs := List.nodup_cons.mp hl
-      by_cases hx : x = a
-      · simp only [List.map_cons, List.filter_cons, notifFrame, hx, decide_true, if_true]
-        have hnot : a ∉ xs := hx ▸ hxs.1
-        have e1 : xs.filter (· = a) = [] := by
-          rw [List.filter_eq_nil_iff]; intro y hy hya; simp at hya; subst hya; exact hnot hy
-        have e2 : (xs.map (fun b => notifFrame b m)).filter (fun x => x.1 = a) = [] := by
-          rw [List.filter_eq_nil_iff]; intro y hy hya
-          obtain ⟨b, hb, hby⟩ := List.mem_map.mp hy
-          subst hby; simp [notifFrame] at hya; subst hya; exact hnot hb
-        simp [e1]
-        simpa [notifFrame] using e2
-      · have ha' : a ∈ xs := by
-          simp only [List.mem_cons] at ha
-          rcases ha with ha | ha
-          · exact absurd ha.symm hx
-          · exact ha
-        have := ih hxs.2 ha'
-        simp only [List.map_cons, List.filter_cons, notifFrame, hx, decide_false] at this ⊢
-        simpa using this
-  rw [this]
+  rw [filter_frames]
   rcases nodup_filter_eq l a hl with h1 | h1
   · exfalso
     have : a ∈ l.filter (· = a) := List.mem_filter.mpr ⟨ha, by simp⟩
     rw [h1] at this; simp at this
   · simp [h1]
+
+private theorem count_unreached (l : List Nat) (a m : Nat) (ha : a ∉ l) :
+    (l.map (fun b => notifFrame b m)).filter (fun x => x.1 = a) = [] := by
+  rw [filter_frames]
+  have : l.filter (· = a) = [] := by
+    rw [List.filter_eq_nil_iff]; intro y hy hya
+    have : y = a := by simpa using hya
+    subst this; exact ha hy
+  simp [this]
 
 /-- **Broadcast count** (Streamable, stateful): `BroadcastNotification` returns as its count the number of active sessions
     that have an open stream; exactly those sessions gain exactly one frame, tagged with this send and addressed to them,
@@ -361,22 +359,18 @@ theorem C05_broadcast_count (f : Facts) (s : St) (m : Nat) (hw : WF s) :
   intro reached r
   have hnd : reached.Nodup := nodup_filter _ _ hw.1
   refine ⟨?_, rfl, ?_, ?_⟩
-  · show (step (.streamable false) f s (.broadcast m)).2 = _ ∨ _
-    simp only [step]
+  · have hret : r.2 = (if s.sessions.length - reached.length = s.sessions.length ∧ s.sessions.length - reached.length > 0
+        then .count 0 (some .allFailed) else .count reached.length none) := rfl
+    rw [hret]
     split
     · rename_i hc
       right
       refine ⟨rfl, ?_⟩
-      have hle : (s.sessions.filter (hasStream s)).length ≤ s.sessions.length := List.length_filter_le _ _
-      show (s.sessions.filter (hasStream s)).length = 0
+      have hle : reached.length ≤ s.sessions.length := List.length_filter_le _ _
       omega
     · left; rfl
   · intro a ha; exact count_reached reached a m hnd ha
-  · intro a ha
-    rw [List.filter_eq_nil_iff]
-    intro y hy hya
-    obtain ⟨b, hb, hby⟩ := List.mem_map.mp hy
-    subst hby; simp [notifFrame] at hya; subst hya; exact ha hb
+  · intro a ha; exact count_unreached reached a m ha
 
 /-- **Filtered count**: `SendFilteredNotification` reports (reached, failed) = (selected sessions with an open stream,
     selected sessions without); exactly the reached ones gain one frame each. -/
@@ -391,8 +385,9 @@ theorem C05_filtered_count (f : Facts) (s : St) (sl : List Nat) (m : Nat) (hw : 
   intro chosen reached r
   have hnd : reached.Nodup := nodup_filter _ _ (nodup_filter _ _ hw.1)
   refine ⟨?_, rfl, ?_⟩
-  · show (step (.streamable false) f s (.filtered sl m)).2 = _ ∨ _
-    simp only [step]
+  · have hret : r.2 = (if chosen.length - reached.length > 0 ∧ reached.length = 0
+        then .counts 0 (chosen.length - reached.length) (some .allFailed) else .counts reached.length (chosen.length - reached.length) none) := rfl
+    rw [hret]
     split
     · rename_i hc
       right; exact ⟨rfl, hc.2⟩
@@ -593,14 +588,14 @@ theorem C05_answer_lost_witness :
     not initialized" and nothing is written, although the session exists and its stream is open. -/
 theorem C05_sse_notification_counterexample (f : Facts) (hf : f.sseInitialized = false) (s : St) (a m : Nat) :
     (step .legacySse f s (.send a m)).2 ≠ .ok ∧ (step .legacySse f s (.send a m)).1 = s := by
-  simp only [step, canNotify, hf]
-  split <;> simp_all
+  by_cases h : a ∈ s.sessions <;> simp [step, canNotify, hf, h]
 
 /-- once sessions do get initialized, a send to an existing session is written on its stream. -/
 theorem C05_sse_notification_partial (f : Facts) (hf : f.sseInitialized = true) (s : St) (a m : Nat) (ha : s.sessions.contains a = true) :
     (step .legacySse f s (.send a m)).2 = .ok ∧
     (step .legacySse f s (.send a m)).1.delivered = s.delivered ++ [(a, ⟨.notif, a, m⟩)] := by
-  simp [step, canNotify, hf, ha, notifFrame]
+  have ha' : a ∈ s.sessions := List.contains_iff_mem.mp ha
+  simp [step, canNotify, hf, ha', notifFrame]
 
 /-! ## nothing left pending -/
 
@@ -618,8 +613,9 @@ private theorem removeTag_tags (m : Nat) (l : List PEntry) : (removeTag m l).map
   induction l with
   | nil => rfl
   | cons e es ih =>
-    simp only [removeTag, List.filter_cons, List.map_cons] at ih ⊢
-    by_cases h : e.tag = m <;> simp [h, ih]
+    by_cases h : e.tag = m
+    · simp [removeTag, h] at ih ⊢; exact ih
+    · simp [removeTag, h] at ih ⊢; exact ih
 
 private theorem waiting_step (srv : Server) (f : Facts) (hf : f.deferredDelete = true) (s : St) (op : Op)
     (h : s.pending.map PEntry.tag = s.waiting) :
